@@ -412,6 +412,56 @@ fn big_pos_case(ctx: &Ctx, pos: u64, counting: bool) -> PResult {
 	Ok(())
 }
 
+/// sizes up to the u64 limit: an MMR of `n` leaves (n <= 2^63) has size 2n - popcount(n) (<= u64::MAX)
+/// and one peak per set bit of n, left to right by descending height
+fn big_size_case(ctx: &Ctx, n: u64, counting: bool) -> PResult {
+	let ev = &ctx.ev;
+	if counting {
+		ev.eval();
+	}
+	if n == 0 || n > (1u64 << 63) {
+		return Ok(());
+	}
+	let size128: u128 = 2 * n as u128 - n.count_ones() as u128;
+	let size = size128 as u64;
+	let mut want: Vec<u64> = vec![];
+	let mut at: u128 = 0;
+	for b in (0..64u32).rev() {
+		if n >> b & 1 == 1 {
+			at += (1u128 << (b + 1)) - 1;
+			want.push((at - 1) as u64);
+		}
+	}
+	let got = pmmr::peaks(size);
+	ensure!(got == want, "big-peaks", "peaks(size {} = {} leaves) = {:?}, by the definition {:?}", size, n, got, want);
+	ensure!(pmmr::n_leaves(size) == n, "big-size-n_leaves", "n_leaves(size {}) = {} for an MMR of {} leaves", size, pmmr::n_leaves(size), n);
+	if n < (1u64 << 63) {
+		ensure!(pmmr::insertion_to_pmmr_index(n) == size, "big-size-insertion", "insertion_to_pmmr_index({}) = {} but the MMR of that many leaves has size {}", n, pmmr::insertion_to_pmmr_index(n), size);
+	}
+	// one more or one fewer node is a valid size only if it is the size of n+-something: the sizes
+	// between two consecutive leaf counts are not sizes of any MMR
+	let next: u128 = 2 * (n as u128 + 1) - (n as u128 + 1).count_ones() as u128;
+	if size128 + 1 < next && size128 + 1 <= u64::MAX as u128 {
+		let g = pmmr::peaks(size + 1);
+		ensure!(g.is_empty(), "big-peaks-invalid-size", "peaks({}) = {:?} although no MMR has that size", size + 1, g);
+	}
+	if counting {
+		ev.nontrivial(&("bigsize-arith", 64 - n.leading_zeros(), n.count_ones().min(8)));
+	}
+	Ok(())
+}
+
+fn big_leaf_counts() -> impl Strategy<Value = u64> {
+	prop_oneof![
+		2 => Just(1u64 << 63),
+		2 => Just((1u64 << 63) - 1),
+		3 => (0u32..63).prop_map(|k| (1u64 << 63) - (1u64 << k)),
+		4 => (1u32..=63, -40i64..=40).prop_map(|(k, d)| ((1u128 << k) as i128 + d as i128).clamp(1, 1i128 << 63) as u64),
+		4 => (1u64..=(1u64 << 63)),
+		3 => (1u32..=63, any::<u64>()).prop_map(|(k, r)| (r & ((1u64 << k) - 1)).max(1)),
+	]
+}
+
 fn big_positions() -> impl Strategy<Value = u64> {
 	prop_oneof![
 		// near 2^k and 2^k-1
@@ -519,6 +569,12 @@ pub fn run(ctx: &Ctx) -> HResult<()> {
 	}
 	ev.sample("bigpos", || json!({"pos": sample_one(ctx.derive_seed("bigpos", 1), &strat)}));
 
+	// D' sizes and peaks up to the u64 limit
+	let strat = big_leaf_counts();
+	if let Some(fl) = pbt(ctx.derive_seed("bigsizes", 0), ctx.n(100_000, 2_000_000) as u32, &strat, &ctx.stop, |n, c| big_size_case(ctx, *n, c)) {
+		ctx.report("bigsizes", &fl.fail.sig, json!({"leaves": fl.value}), &fl.fail.msg);
+	}
+
 	// variable-size elements
 	for k in 0..ctx.n(20, 200) {
 		let n = 1 + ctx.derive_seed("var", k) % 300;
@@ -575,6 +631,7 @@ pub fn replay(ctx: &Ctx, part: &str, case: &Value) -> PResult {
 			false,
 		),
 		"bigpos" => big_pos_case(ctx, case["pos"].as_u64().unwrap_or(0), false),
+		"bigsizes" => big_size_case(ctx, case["leaves"].as_u64().unwrap_or(0), false),
 		"positions" => positions_explicit(ctx, case["height"].as_u64().unwrap_or(10) as u32),
 		"var" => var_elems(ctx, case["seed"].as_u64().unwrap_or(0), case["leaves"].as_u64().unwrap_or(1)),
 		"bigsize" => big_size(ctx, case["leaves"].as_u64().unwrap_or(1), case["data_seed"].as_u64().unwrap_or(0)),
